@@ -61,14 +61,16 @@ func faultDoc(t *rapid.T) map[string]any {
 			grid = append(grid, []any{float64(rapid.IntRange(0, 3).Draw(t, "g0")), float64(rapid.IntRange(0, 3).Draw(t, "g1"))})
 		}
 		rows = append(rows, map[string]any{
-			"id":   float64(i + 1),
-			"a":    float64(rapid.IntRange(0, 4).Draw(t, "a") * 10),
-			"s":    rapid.SampledFrom([]string{"x", "xy", "z"}).Draw(t, "s"),
-			"f":    rapid.Bool().Draw(t, "f"),
-			"n":    nested,
-			"tags": tags,
-			"grid": grid,
-			"o":    map[string]any{"p": float64(rapid.IntRange(1, 3).Draw(t, "op")), "q": rapid.SampledFrom([]string{"k", "m"}).Draw(t, "oq")},
+			"id":     float64(i + 1),
+			"a":      float64(rapid.IntRange(0, 4).Draw(t, "a") * 10),
+			"s":      rapid.SampledFrom([]string{"x", "xy", "z"}).Draw(t, "s"),
+			"f":      rapid.Bool().Draw(t, "f"),
+			"n":      nested,
+			"tags":   tags,
+			"grid":   grid,
+			"o":      map[string]any{"p": float64(rapid.IntRange(1, 3).Draw(t, "op")), "q": rapid.SampledFrom([]string{"k", "m"}).Draw(t, "oq")},
+			"scores": []any{fmt.Sprint(rapid.IntRange(1, 9).Draw(t, "sc0")), fmt.Sprint(rapid.IntRange(1, 9).Draw(t, "sc1")), rapid.SampledFrom([]string{"3", "n/a"}).Draw(t, "sc2")},
+			"nums":   []any{float64(rapid.IntRange(1, 9).Draw(t, "nm0")) + 0.5, float64(rapid.IntRange(1, 9).Draw(t, "nm1"))},
 		})
 	}
 	nu := rapid.IntRange(0, 3).Draw(t, "nu")
@@ -93,6 +95,7 @@ var selectorColumns = []string{
 	"`distinct=>tags` AS dt", "`tags[(1:end)]` AS sl1", "`tags[(begin:2)]` AS sl2", "`tags[(0:1)]` AS sl3", "`tags[0]` AS t0",
 	"`grid[each:0]` AS g0", "`grid[0]` AS gr0", "`n{v|string, w}` AS rs", "`n[0].v` AS v0", "`mix=>n[each].v` AS mx", "`n[(0:end)].w` AS ws",
 	"`distinct=>n[each].w` AS dw", "`grid[(0:end)]::[0]` AS cont",
+	"`grid[each (0:1)]` AS ge1", "`grid[each (begin:1)]` AS ge2", "`grid[each (1:2)]` AS ge3", "`grid[each each]` AS ge4", "`n[each].v` AS nv",
 }
 
 func (b *fqBuilder) selectItem(prefix string, nestedOK bool) string {
